@@ -229,6 +229,24 @@ func (t *Type) Shape() string {
 	return t.Kind.Letter()
 }
 
+// ZeroWidth reports whether every value of t has an empty serialization:
+// void, and tuples and structures all of whose members are zero-width (the
+// empty tuple first of all).
+func (t *Type) ZeroWidth() bool {
+	switch t.Kind {
+	case Void:
+		return true
+	case Tuple, Struct:
+		for _, m := range t.Members {
+			if !m.ZeroWidth() {
+				return false
+			}
+		}
+		return true
+	}
+	return false
+}
+
 // Contains reports whether kind k occurs anywhere in t.
 func (t *Type) Contains(k Kind) bool {
 	if t.Kind == k {
